@@ -180,6 +180,45 @@ theorem C13_handleCommand_total : ∀ (fuel : Nat) (buf : Bytes), ∃ ls, handle
           · exact ⟨_, rfl⟩
           · split <;> exact ⟨_, rfl⟩
 
+theorem foldlM_congr_parts (parts : List Bytes) (f g : Bytes → G (List Leaf)) (h : ∀ p ∈ parts, f p = g p) (acc : List Leaf) :
+    parts.foldlM (fun acc p => do let l ← f p; pure (acc ++ l)) acc =
+    parts.foldlM (fun acc p => do let l ← g p; pure (acc ++ l)) acc := by
+  induction parts generalizing acc with
+  | nil => rfl
+  | cons p ps ih =>
+    simp only [List.foldlM_cons, h p (by simp)]
+    cases g p with
+    | error e => rfl
+    | ok l => simp only [bind, Except.bind, pure, Except.pure]; exact ih (fun q hq => h q (by simp [hq])) _
+
+/-- **compound_terminates.** The nesting depth of compound messages is bounded by the length of the
+packet: once the fuel exceeds the buffer length, more fuel changes nothing - the dispatcher has
+reached every leaf. (`ingestPacket` calls it with `length + 1`.) -/
+theorem C13_compound_terminates : ∀ (fuel : Nat) (buf : Bytes), buf.length < fuel →
+    handleCommand (fuel + 1) buf = handleCommand fuel buf := by
+  intro fuel
+  induction fuel with
+  | zero => intro buf h; omega
+  | succ n ih =>
+    intro buf h
+    cases buf with
+    | nil => rfl
+    | cons t body =>
+      simp only [handleCommand]
+      by_cases h1 : t.toNat = Gen.c_compoundMsg
+      · simp only [h1, ↓reduceIte]
+        cases hd : decodeCompound body with
+        | error e => rfl
+        | ok tp =>
+          obtain ⟨tr, parts⟩ := tp
+          simp only
+          apply foldlM_congr_parts
+          intro p hp
+          have := decodeCompound_parts_shorter body tr parts hd p hp
+          simp only [List.length_cons] at h
+          exact ih p (by omega)
+      · simp only [h1, ↓reduceIte]
+
 theorem unCrc_no_panic (crcOk : Bytes → Bytes → Bool) (buf : Bytes) : unCrc crcOk buf ≠ .error .panic := by
   unfold unCrc
   split
